@@ -181,12 +181,15 @@ def jac_items(tier):
         out.append(dict(kind="jac-lattice", sizes=sizes, interpolation=interp, units=units))
       if len(sizes) >= 2:
         out.append(dict(kind="jac-lattice", sizes=sizes, interpolation=interp, units=1, form="list"))
-  for kp in ([0.0, 1.0], [0.0, 1.0, 3.0], [0.0, 0.1, 1.0, 4.0]):
+  for kp in ([0.0, 1.0], [0.0, 1.0, 3.0], [0.0, 0.1, 1.0, 4.0], [-2.0, -1.0, 0.5, 3.0], [1.0, 2.0, 4.0, 5.0]):
     for units in (1, 2):
       for cyclic in (False, True):
         if cyclic and len(kp) < 3:
           continue
         out.append(dict(kind="jac-pwl", kp=kp, units=units, cyclic=cyclic))
+      if len(kp) >= 3:
+        # learned interior keypoints: the weights follow the keypoints the layer reports
+        out.append(dict(kind="jac-pwl", kp=kp, units=units, cyclic=False, learned=True))
   for nb in (2, 4):
     for units in (1, 2):
       out.append(dict(kind="jac-cat", nb=nb, units=units))
@@ -240,11 +243,22 @@ def jac_case(item, ctx=None):
     cnt = X.shape[0] * n * units
   elif item["kind"] == "jac-pwl":
     kp, cyclic = item["kp"], item["cyclic"]
+    learned = bool(item.get("learned"))
     layer = tfl.layers.PWLCalibration(input_keypoints=np.array(kp, dtype=np.float32), units=units,
-                                      is_cyclic=cyclic)
+                                      is_cyclic=cyclic,
+                                      input_keypoints_type="learned_interior" if learned else "fixed")
     layer.build((None, 1))
     rows = len(kp) - (1 if cyclic else 0)
+    if learned:
+      logits = np.array([0.6, -0.4, 0.2, -0.9][:len(kp) - 1])
+      layer.interpolation_logits.assign(np.tile(logits[None, :], (units, 1)).astype(np.float32))
+      kp = rp.learned_keypoints(kp, logits).tolist()
+      rep_kp = np.asarray(layer.keypoints_inputs(), dtype=np.float64)
+      if np.abs(rep_kp - np.array(kp)[:, None]).max() > 1e-4 * max(1.0, abs(kp[-1] - kp[0])):
+        msgs.append("keypoints_inputs() %s differ from the softmax-derived keypoints %s" % (rep_kp[:, 0].tolist(), kp))
     xs = rp.input_points(kp)
+    if learned:  # stay clear of the kinks, whose position carries float32 rounding
+      xs = xs[np.min(np.abs(xs[:, None] - np.array(kp)[None, :]), axis=1) > 1e-3]
     xin = tf.constant(xs[:, None].astype(np.float32))
     Wref = np.stack([rp.evaluate(kp, np.eye(rows)[:, j], xs, cyclic) for j in range(rows)], axis=1)
     jacs = []
